@@ -465,3 +465,25 @@ Proof.
   - right. exists s. split; [reflexivity|]. now apply (parse_blocks_panic_rem o x).
   - exfalso. exact (BlocksTotal5Loop.parse_blocks_no_fuel o x E).
 Qed.
+
+(* the sites this round adds to the 76 of Blocks_total_partial_sites_all: the leaf functions that are total for all
+   arguments, and the two sites excluded by a local argument in this file *)
+Definition new_sites : list string :=
+  [ "strings.rs:ltrim:line.len() - spaces";
+    "strings.rs:rtrim:line.len() - spaces";
+    "strings.rs:unescape:prev + 1 - found";
+    "strings.rs:unescape:window slice";
+    "strings.rs:unescape:v.len() - found";
+    "strings.rs:shift_buf_left:assert n <= buf.len()";
+    "entity.rs:unescape:hex digit - 9";
+    "inlines.rs:manual_scan_link_url:input[1..i - 1]";
+    "strings.rs:clean_title:title[1..title_len - 1]";
+    "strings.rs:line_at:bytes[end..]" ].
+
+Theorem parse_blocks_no_panic_all5 o x s :
+  In s (tree_sites ++ cur_sites ++ new_sites) -> parse_blocks o x <> Panic s.
+Proof.
+  intros H E. apply parse_blocks_panic_rem in E.
+  assert (D : forallb (fun t => negb (inl rem_sites t)) (tree_sites ++ cur_sites ++ new_sites) = true) by (vm_compute; reflexivity).
+  rewrite forallb_forall in D. specialize (D s H). apply inl_in in E. rewrite E in D. discriminate D.
+Qed.
